@@ -41,9 +41,13 @@ def classify(component, what, case):
         return "F62"
     if law == "accepts" and case.get("errors", "").startswith("NoUniq:") and "unique-default-below-case-or-presence" in feat:
         return "F60"
+    if law == "accepts" and case.get("errors", "").split(":")[0] in ("NoMand", "NoMin", "NoMandChoice", "NoUniq") and "default-case-nested-in-non-default-case" in feat:
+        return "F66"
+    if law == "implicit" and "tree-has-nodes-the-rfc-does-not" in feat and "default-case-nested-in-non-default-case" in feat:
+        return "F66"
     if law == "accepts" and case.get("errors", "").startswith("Other:") and "userord-default-recreated" in feat:
         return "F63"
-    if law == "valdiff-eq" and ("np-container-given-as-new-instance" in feat or "default-np-container-removed" in feat):
+    if law in ("valdiff-eq", "valdiff-apply") and ("np-container-given-as-new-instance" in feat or "default-np-container-removed" in feat):
         return "F64"
     if law == "implicit" and "missing-defaults-of-a-case-whose-data-sits-in-a-nested-choice" in feat:
         return "F65"
@@ -135,26 +139,52 @@ def history_text(h):
     return "\n".join(out)
 
 
-def default_np_container_removed(s, prev_tok, cur_tok):
-    """a default non-presence container of the previous validated tree whose place is empty in this one"""
+def ops_before(h, vi):
+    """the edit steps in front of validation number vi"""
+    out, k = [], 0
+    for st in h.steps:
+        if st == "V":
+            if k == vi:
+                return out
+            k += 1
+            out = []
+        else:
+            out.append(st)
+    return out
+
+
+def default_np_container_removed(s, prev_tok, cur_tok, ops):
+    """a non-presence container of the previous validated tree whose place is empty in this one although no edit step deleted it:
+    validation removed it (as a default node: next to an explicit instance, or as the leftover of a case that no longer exists)"""
     def conts(tok):
-        out = {}
+        out = set()
 
         def walk(nodes, pre):
             for n in nodes:
                 p = pre + ((n.sn.sid, n.val if n.sn.kind == "leaflist" else None, tuple(k.val for k in n.kids[:len(n.sn.keys)]) if n.sn.kind == "list" else None),)
                 if n.sn.np_cont():
-                    out[p] = bool(n.flags & tg.F_DFLT)
+                    out.add(p)
                 walk(n.kids, p)
         walk(tg.untok(s, tok), ())
         return out
-    a, b = conts(prev_tok), conts(cur_tok)
-    return any(d and p not in b for p, d in a.items())
+    deleted_sids = set()
+    for st in ops:
+        if st.startswith("D:"):
+            last = st[2:].split("/")[-1]
+            deleted_sids.add(int(last.split("[")[0].split("=")[0].split("#")[0]))
+    gone = conts(prev_tok) - conts(cur_tok)
+    return any(not any(step[0] in deleted_sids for step in p) for p in gone)
 
 
 def schema_features(s):
     from checks import c02
-    return c02.features(s)
+    f = list(c02.features(s))
+    for n in s.nodes:
+        # a choice with a default case, directly inside a case that is not the default case of its own choice
+        if n.kind == "choice" and n.dflt and n.parent is not None and n.parent.kind == "case" and n.parent.parent.dflt != n.parent.name:
+            f.append("default-case-nested-in-non-default-case")
+            break
+    return f
 
 
 def tree_features(s, tree_tok):
@@ -255,7 +285,7 @@ def eval_hist(cx, h, r, l, spec):
             if sp[1] != T:
                 cx.fail(COMP, "the implicit nodes of the validated tree are not exactly the defaults RFC 7950 puts in use",
                         payload(h, "implicit", vi, tree=tg.pretty(h.s, tg.untok(h.s, T))[:3000], rfc=tg.pretty(h.s, tg.untok(h.s, sp[1]))[:3000],
-                                more=sorted(feats | implicit_diff_features(h.s, T, sp[1]))))
+                                more=sorted(feats | implicit_diff_features(h.s, T, sp[1]) | set(schema_features(h.s)))))
         # ---- idempotent / valdiff
         if not lf:
             continue
@@ -274,7 +304,7 @@ def eval_hist(cx, h, r, l, spec):
             cx.fail(COMP, "the change set of the validation cannot be applied to the pre-validation tree (%s)" % ap, payload(h, "valdiff-apply", vi, more=sorted(feats)))
         elif eq != "1":
             more = set(feats)
-            if vi and default_np_container_removed(h.s, f["T%d" % (vi - 1)], T):
+            if vi and default_np_container_removed(h.s, f["T%d" % (vi - 1)], T, ops_before(h, vi)):
                 more.add("default-np-container-removed")
             cx.fail(COMP, "the change set applied to the pre-validation tree does not give the validated tree", payload(h, "valdiff-eq", vi, more=sorted(more)))
     if l[0] != "ok" and l[:2] != ["err", "Crash"]:
